@@ -231,10 +231,13 @@ def check(prog, rep):
         if any(r is None for r in res.values()):
             rep.undecided("Constraint.__post_init__: sense validation not interpretable")
             ok = None
+        elif any(len(r) != 1 for r in res.values()):
+            rep.undecided("Constraint.__post_init__: whether a sense is accepted depends on a test this rule cannot evaluate")
+            ok = None
         else:
             ok = all(res[v] == {"pass"} for v in ("<=", ">=", "==")) and all(res[v] == {"raise"} for v in ("=<", "<", "!="))
     if ok is not None:
-      rep.ob("R10.1", "Constraint.__post_init__", ok, "rejects every sense other than <=, >=, ==" if ok else "does not reject senses outside {<=, >=, ==}: a typo such as '=<' would be treated as an equality by the solver", loc=post.loc if post else C.loc, detail="sense-validated")
+      rep.ob("R10.1", "Constraint.__post_init__", ok, robust=True, msg= "rejects every sense other than <=, >=, ==" if ok else "does not reject senses outside {<=, >=, ==}: a typo such as '=<' would be treated as an equality by the solver", loc=post.loc if post else C.loc, detail="sense-validated")
 
     # ------------------------------------------------------------------ R10.2
     viol = C.methods.get("violation")
